@@ -100,6 +100,20 @@ def phase_faults(rep, tier, seed):
     for j in range(COMBO_N[tier]):
         s_ = core.run_seed(seed, "c12-combo", j)
         cases.append(FS.combo_case(core.stream(s_, "case"), s_, j + seed))
+    # the refusal guard of connected double nulls ("second X-point outside the first
+    # gridded surface") under each sign / scale option, on every disconnected topology:
+    # refused on the unchanged tree within a second; whatever is generated instead is
+    # judged by V like everything else
+    for gi, geom in enumerate(("udn", "ldn", "udn2")):
+        for oi, opt in enumerate(({"reverse_current": True}, {"psi_divide_twopi": True},
+                                  {"reverse_Bt": True})):
+            s_ = core.run_seed(seed, "c12-guard", gi * 3 + oi)
+            case = FS.make_case(core.stream(s_, "case"), s_, kind="opt_combo",
+                                entry=("api-tok", "geqdsk")[(gi + oi + seed) % 2], geom=geom)
+            case["options"].update({"nx_inter_sep": 0, "nx_sol": 3})
+            case["options"].update(opt)
+            case["fault"]["combo"] = ["dn_connected", list(opt)[0]]
+            cases.append(case)
     # OUT-ERR enumeration: the k-th DataFile call fails, k = 1..K, on two configurations
     enum_cases = []
     for entry, geom in (("circular", None), ("geqdsk", "lsn")):
